@@ -35,8 +35,8 @@ theorem addArp_known (nd : Node) (ip : Ip) (mac : Mac) (i : Nat) (e : ArpEntry) 
 /-- what a warm router needs to pass an ICMP frame `src → dst` arriving on interface `i` for MAC `inMac` on to
 interface `(m, j)` with destination MAC `e.mac`. `viaRoute = true`: off-link, along `find_best_route`; `false`: the
 destination is on-link and cached. -/
-structure Hop (N : List Node) (src dst : Ip) (n i : Nat) (inMac : Mac) (m j : Nat) (outSrc outDst : Mac) : Prop where
-  node : ∃ nd ifc es e oif pif, N[n]? = some nd ∧ nd.kind = .router ∧ nd.on = true ∧ nd.ifaces[i]? = some ifc ∧
+structure Hop (N : List Node) (pl : Pl) (src dst : Ip) (n i : Nat) (inMac : Mac) (m j : Nat) (outSrc outDst : Mac) : Prop where
+  node : ∃ nd ifc es e oif pif, N[n]? = some nd ∧ nd.kind = .router ∧ transitOk nd i pl dst = true ∧ nd.ifaces[i]? = some ifc ∧
     ifc.mac = inMac ∧ nd.arpGet src = some es ∧ ifaceWithIp nd.ifaces dst = none ∧
     ((nd.arpGet dst = none ∧ firstIn nd.ifaces dst 0 = none ∧ (findBestRoute nd.routes dst).nextHop? = some e.ip ∧
         findBestRoute nd.routes dst ≠ .raised ∧ nd.arpGet e.ip = some e ∧ oif.inNet dst = false) ∨
